@@ -47,6 +47,7 @@ fn main() {
         "chain" => chain::main(&o),
         "idl" => idl::main_idl(&o),
         "idlrt" => idl::main_idlrt(&o),
+        "idlx" => idl::main_idlx(&o),
         "reply" => env::main_reply(&o),
         "envelope" => env::main_envelope(&o),
         "ser" => ser::main(&o),
